@@ -35,8 +35,8 @@ pub struct TxConfig {
 
 impl TxConfig {
     pub fn adjust_power(&mut self, max_power: u8, antenna_gain: i8) {
-        self.pw -= antenna_gain;
-        self.pw = core::cmp::min(self.pw, max_power as i8);
+        self.pw = self.pw.saturating_sub(antenna_gain);
+        self.pw = core::cmp::min(self.pw, i8::try_from(max_power).unwrap_or(i8::MAX));
     }
 }
 
